@@ -8,6 +8,10 @@ DEPS = ['nint', 'nnum', 'coretypes']
 NEEDS_EXPANDED = True
 
 ITEMS = [
+    Item(id='obj_i64', source='src/core.rs', locator='impl Obj / fn i64',
+         ensures=[('value', 'r == Obj::Num(NNum::Int(NInt::Small(n)))')], props=['C10']),
+    Item(id='obj_one', source='src/core.rs', locator='impl Obj / fn one',
+         ensures=[('value', 'r == Obj::Num(NNum::Int(NInt::Small(1)))')], props=['C10']),
     Item(id='obj_u8', source='src/core.rs', locator='impl Obj / fn u8',
          ensures=[('value', 'r == Obj::Num(NNum::Int(NInt::Small(n as i64)))')], props=['C10']),
     Item(id='obj_list', source='src/core.rs', locator='impl Obj / fn list',
